@@ -2,11 +2,12 @@
 #include "hx.h"
 #include <ascon/xof.h>
 #include <ascon/hash.h>
+#include <ascon/prf.h>
 #include <ascon/permutation.h>
 
-struct XObj { int kind; /* 0 xof 1 xofa 2 hash 3 hasha */ ascon_xof_state_t x; ascon_xofa_state_t a; ascon_hash_state_t h; ascon_hasha_state_t ha; };
+struct XObj { int kind; /* 0 xof 1 xofa 2 hash 3 hasha 4 prf */ ascon_prf_state_t p; ascon_xof_state_t x; ascon_xofa_state_t a; ascon_hash_state_t h; ascon_hasha_state_t ha; };
 static std::map<int, XObj *> xs;
-static int kind_of(const std::string &v) { return v == "xof" ? 0 : v == "xofa" ? 1 : v == "hash" ? 2 : v == "hasha" ? 3 : -1; }
+static int kind_of(const std::string &v) { return v == "xof" ? 0 : v == "xofa" ? 1 : v == "hash" ? 2 : v == "hasha" ? 3 : v == "prf" ? 4 : -1; }
 
 static std::string op_xo(const Toks &t) {
     Buf in(unhex(t[2]), true), out(32);
@@ -23,14 +24,21 @@ static ascon_xofa_state_t *xofap(XObj *o) { return o->kind == 1 ? &o->a : o->kin
 
 static std::string op_x(const Toks &t) {
     int slot = atoi(t[1].c_str());
-    if (t.size() >= 4 && (t[3] == "INIT" || t[3] == "INITF" || t[3] == "INITC" || t[3] == "REINIT" || t[3] == "REINITF" || t[3] == "REINITC")) {
+    if (t.size() >= 4 && (t[3] == "INIT" || t[3] == "INITF" || t[3] == "INITC" || t[3] == "REINIT" || t[3] == "REINITF" || t[3] == "REINITC" || t[3] == "INITK" || t[3] == "REINITK")) {
         bool re = t[3][0] == 'R';
         int k = kind_of(t[2]);
         XObj *o;
         if (re) { if (!xs.count(slot)) return "NOSLOT"; o = xs[slot]; if (o->kind != k) return "ERR kind"; }
         else { o = new XObj; memset(o, 0xCD, sizeof(*o)); o->kind = k; if (xs.count(slot)) delete xs[slot]; xs[slot] = o; }
         const std::string op = re ? t[3].substr(2) : t[3];
-        if (op == "INIT") {
+        if (op == "INITK") {
+            if (k != 4) return "UNSUPPORTED";
+            Buf key(unhex(t[4]));
+            size_t L = (size_t)strtoull(t[5].c_str(), 0, 10);
+            if (L == 0 && t.size() > 6) (re ? ascon_prf_reinit : ascon_prf_init)(&o->p, key.p);
+            else (re ? ascon_prf_fixed_reinit : ascon_prf_fixed_init)(&o->p, key.p, L);
+        } else if (op == "INIT") {
+            if (k == 4) return "UNSUPPORTED";
             if (k == 0) (re ? ascon_xof_reinit : ascon_xof_init)(&o->x);
             else if (k == 1) (re ? ascon_xofa_reinit : ascon_xofa_init)(&o->a);
             else if (k == 2) (re ? ascon_hash_reinit : ascon_hash_init)(&o->h);
@@ -56,6 +64,7 @@ static std::string op_x(const Toks &t) {
     const std::string &op = t[2];
     if (op == "ABS") {
         Buf in(unhex(t[3]), true);
+        if (o->kind == 4) ascon_prf_absorb(&o->p, in.p, in.n); else
         if (o->kind == 0) ascon_xof_absorb(&o->x, in.p, in.n); else if (o->kind == 1) ascon_xofa_absorb(&o->a, in.p, in.n);
         else if (o->kind == 2) ascon_hash_update(&o->h, in.p, in.n); else ascon_hasha_update(&o->ha, in.p, in.n);
         return "OK";
@@ -63,12 +72,15 @@ static std::string op_x(const Toks &t) {
     if (op == "SQZ") {
         size_t n = (size_t)atoi(t[3].c_str());
         Buf out(n);
+        if (o->kind == 4) ascon_prf_squeeze(&o->p, out.p, n); else
         if (o->kind == 0) ascon_xof_squeeze(&o->x, out.p, n); else if (o->kind == 1) ascon_xofa_squeeze(&o->a, out.p, n);
         else if (n == 32 && o->kind == 2) ascon_hash_finalize(&o->h, out.p);
         else if (n == 32 && o->kind == 3) ascon_hasha_finalize(&o->ha, out.p);
         else if (o->kind == 2) ascon_xof_squeeze(&o->h.xof, out.p, n); else ascon_xofa_squeeze(&o->ha.xof, out.p, n);
         return out.hx();
     }
+    if (op == "PAD" && o->kind == 4) return "UNSUPPORTED";
+    if (op == "COPY" && o->kind == 4) return "UNSUPPORTED";
     if (op == "PAD") {
         if (xofp(o)) ascon_xof_pad(xofp(o)); else ascon_xofa_pad(xofap(o));
         return "OK";
@@ -83,6 +95,7 @@ static std::string op_x(const Toks &t) {
         return "OK";
     }
     if (op == "FREE") {
+        if (o->kind == 4) ascon_prf_free(&o->p); else
         if (o->kind == 0) ascon_xof_free(&o->x); else if (o->kind == 1) ascon_xofa_free(&o->a);
         else if (o->kind == 2) ascon_hash_free(&o->h); else ascon_hasha_free(&o->ha);
         delete o; xs.erase(slot);
@@ -90,7 +103,8 @@ static std::string op_x(const Toks &t) {
     }
     if (op == "DUMP") {
         unsigned char b[40]; unsigned count, mode;
-        if (xofp(o)) { ascon_xof_state_t *x = xofp(o); ascon_acquire(&x->state); ascon_extract_bytes(&x->state, b, 0, 40); ascon_release(&x->state); count = x->count; mode = x->mode; }
+        if (o->kind == 4) { ascon_prf_state_t *x = &o->p; ascon_acquire(&x->state); ascon_extract_bytes(&x->state, b, 0, 40); ascon_release(&x->state); count = x->count; mode = x->mode; }
+        else if (xofp(o)) { ascon_xof_state_t *x = xofp(o); ascon_acquire(&x->state); ascon_extract_bytes(&x->state, b, 0, 40); ascon_release(&x->state); count = x->count; mode = x->mode; }
         else { ascon_xofa_state_t *x = xofap(o); ascon_acquire(&x->state); ascon_extract_bytes(&x->state, b, 0, 40); ascon_release(&x->state); count = x->count; mode = x->mode; }
         return std::to_string(count) + " " + std::to_string(mode) + " " + hex(b, 40);
     }
